@@ -19,6 +19,8 @@ From RV Require Import Proofs.PixelIdentity.
 From RV Require Import Proofs.PixelEarly.
 From RV Require Import Proofs.Morphology.
 From RV Require Import Proofs.FilterGeom.
+From RV Require Import Model.SrgbSpec.
+From RV Require Import Proofs.SrgbSpec.
 From Flocq Require Import Core BinarySingleNaN.
 Local Open Scope Z_scope.
 
@@ -59,6 +61,12 @@ Proof. exact morphology_valid. Qed.
 Print Assumptions C16_morphology_valid.
 
 (* ================================================================== lookup tables (as in the source now) *)
+(* every entry is the byte nearest to the sRGB transfer function (decided in exact rationals, Model/SrgbSpec.v) *)
+Theorem C16_lut_is_srgb_transfer : forall c, is_byte c ->
+  into_linear_ok c (lut_into_linear_ch c) = true /\ from_linear_ok c (lut_from_linear_ch c) = true.
+Proof. intros c Hc. split; [apply into_linear_table_is_srgb|apply from_linear_table_is_srgb]; exact Hc. Qed.
+Print Assumptions C16_lut_is_srgb_transfer.
+
 Theorem C16_lut_monotone : forall c d, 0 <= c -> c <= d -> d <= 255 ->
   lut_into_linear_ch c <= lut_into_linear_ch d /\ lut_from_linear_ch c <= lut_from_linear_ch d.
 Proof. intros. split; [apply into_linear_monotone|apply from_linear_monotone]; assumption. Qed.
@@ -145,12 +153,26 @@ Theorem C16_int_region_within_hull : forall r, pos_rect r ->
   ix ir = hull_l r /\ i_right ir <= hull_r r /\ iy ir = hull_t r /\ i_bottom ir <= hull_b r.
 Proof. exact int_region_within_hull. Qed.
 Print Assumptions C16_int_region_within_hull.
-
+(* guarded by the KNOWN class layer_origin_negative (tiny-skia Rect::round, see Model/FilterGeom.v) *)
 Theorem C16_result_within_region : forall (A : Type) (blend : A -> A -> A) canvas layer bbox maxb ib,
-  pos_rect bbox -> filter_layer bbox maxb = Some ib ->
+  pos_rect bbox -> filter_layer bbox maxb = Some ib -> layer_origin_negative ib = false ->
   forall x y, in_hull bbox x y = false -> draw_layer blend canvas ib layer x y = canvas x y.
 Proof. exact result_within_region. Qed.
 Print Assumptions C16_result_within_region.
+
+Theorem C16_result_within_region_refuted :
+  exists bbox maxb ib x y, pos_rect bbox /\ filter_layer bbox maxb = Some ib /\ layer_origin_negative ib = true /\
+    in_hull bbox x y = false /\
+    draw_layer (fun s d : Z => s) (fun _ _ => 0) ib (fun _ _ => 255) x y = 255.
+Proof. exact result_within_region_refuted. Qed.
+Print Assumptions C16_result_within_region_refuted.
+
+(* whatever the origin: nothing is painted more than one pixel beyond the right / bottom edge of the hull *)
+Theorem C16_result_within_region_plus1 : forall (A : Type) (blend : A -> A -> A) canvas layer bbox maxb ib,
+  pos_rect bbox -> filter_layer bbox maxb = Some ib ->
+  forall x y, in_hull_plus1 bbox x y = false -> draw_layer blend canvas ib layer x y = canvas x y.
+Proof. exact result_within_region_plus1. Qed.
+Print Assumptions C16_result_within_region_plus1.
 
 Theorem C16_layer_within_max : forall bbox maxb ib, filter_layer bbox maxb = Some ib ->
   ix maxb <= ix ib /\ i_right ib <= i_right maxb /\ iy maxb <= iy ib /\ i_bottom ib <= i_bottom maxb.
